@@ -22,9 +22,7 @@ def srcViews : List (String × Codec × (Val → Val)) := [
   ("TrStoragePhase", trStoragePhase, view_TrStoragePhase), ("TrComputePhase", trComputePhase, view_TrComputePhase),
   ("TrBouncePhase", trBouncePhase, view_TrBouncePhase), ("FutureSplitMerge", futureSplitMerge, view_FutureSplitMerge),
   ("IntermediateAddress", intermediateAddress, view_IntermediateAddress), ("ValidatorDescr", validatorDescr, view_ValidatorDescr),
-  ("CatchainConfig", catchainConfig, view_CatchainConfig),
-  -- validated against the spec value although not (yet) proved:
-  ("TrActionPhase", trActionPhase, view_TrActionPhase)]
+  ("CatchainConfig", catchainConfig, view_CatchainConfig)]
 
 /-- `tlbsrc <Class> <dag> <node>` → `ok <value json> <remaining bits> <remaining refs>` | `none` :
     the regenerated reader of the class run on that (ordinary) cell -/
